@@ -501,6 +501,7 @@ func runConcrete(prog *ssa.Program, mainpkg *ssa.Package, opts interp.Options, p
 		Msg      string   `json:"msg,omitempty"`
 		Observes []string `json:"observes"`
 		Failed   []string `json:"failed"`
+		Reached  []string `json:"reached"`
 	}
 	var recs []outRec
 	for _, sp := range specs {
@@ -509,6 +510,10 @@ func runConcrete(prog *ssa.Program, mainpkg *ssa.Package, opts interp.Options, p
 		for _, v := range res.Violations {
 			r.Failed = append(r.Failed, v.Label+":"+v.Msg)
 		}
+		for k := range res.Reached {
+			r.Reached = append(r.Reached, k)
+		}
+		sort.Strings(r.Reached)
 		recs = append(recs, r)
 	}
 	jb, _ := json.MarshalIndent(recs, "", " ")
